@@ -142,16 +142,7 @@ func featureCombos(keys ...string) [][]lx.LedgerSpec {
 		}
 		out = next
 	}
-	// effective volumes require moves history
-	var valid [][]lx.LedgerSpec
-	for _, c := range out {
-		f := c[0].Features
-		if f["MOVES_HISTORY"] == "OFF" && f["MOVES_HISTORY_POST_COMMIT_EFFECTIVE_VOLUMES"] == "SYNC" {
-			continue
-		}
-		valid = append(valid, c)
-	}
-	return valid
+	return out
 }
 
 func init() {
